@@ -98,10 +98,51 @@ def float_gen(rng):
 
 REGEXPS = ["[a-c]{2,4}x?", "\\d+", "(?i)ab*c", "a|bc|def", "^start.*end$", "[^\\x00-\\x7f]{1,3}", "\\w+@[a-z]{2,5}\\.(com|org)", "(ab){0,3}c?",
            "\\bfoo\\b", ".", "(?s).", "x{3}", "[[:alpha:]][[:digit:]]*", "\\p{Greek}+", "(?i)[k-qα]{2,5}", "a*", "$^", "\\x{10FFFF}"]
+REGEXPS += ["[a-z!]\\B[a-z!]", "(?:foo|-)\\B(?:bar|-)", "\\w+\\B[ .x]", "\\Aab?\\z", "(?m)^a$\\n^b$", "a\\b b\\B", "(?U)a+?b*", "[^a]", "(?i)ǅs", "\\pN{2}|\\PL",
+            "(?s)a.b", "a.b", "(?m:^)x(?m:$)", "\\Bx\\B|\\by\\b", "[\\x{D7FF}-\\x{E000}]{1,2}", "(?i)\\B[a-c_]\\B"]
+
+
+def random_regexp(rng, depth=3):
+    """A random, syntactically valid RE2 expression over every construct rapid's regexp generator has a case for
+    (literals, classes, dot with and without (?s), repetition, alternation, groups, flags, and all six zero-width assertions)."""
+    def atom(d):
+        k = rng.randrange(14 if d > 0 else 10)
+        if k == 0:
+            return rng.choice(["a", "b", "Z", "0", "_", " ", "-", "é", "ж", "\\.", "\\n", "\\x{1F600}"])
+        if k == 1:
+            return rng.choice(["[a-c]", "[^a-c]", "[a-z!]", "[0-9_]", "[ .x]", "[[:alpha:]]", "[[:^digit:]]", "[\\w-]", "[^\\x00-\\x{10FFFE}]", "[α-ω]"])
+        if k == 2:
+            return rng.choice(["\\d", "\\w", "\\s", "\\D", "\\W", "\\S", "\\pL", "\\PL", "\\p{Greek}", "\\pN"])
+        if k == 3:
+            return rng.choice([".", "(?s:.)", "(?i:k)", "(?i:s)"])
+        if k == 4:
+            return rng.choice(["\\b", "\\B", "\\b", "\\B", "^", "$", "\\A", "\\z", "(?m:^)", "(?m:$)"])
+        if k in (5, 6, 7, 8, 9):
+            return rng.choice(["a", "b", "x", "foo", "-", "1"])
+        if k in (10, 11):
+            return "(?:" + expr(d - 1) + ")" + rng.choice(["", "", "*", "+", "?", "{2}", "{0,2}", "{1,3}", "*?", "+?"])
+        if k == 12:
+            return "(" + expr(d - 1) + ")"
+        return "(?:" + expr(d - 1) + "|" + expr(d - 1) + ")"
+
+    def quant(a):
+        if a and a[0] not in "^$(" and not a.startswith(("\\b", "\\B", "\\A", "\\z")) and rng.random() < 0.3:
+            return a + rng.choice(["*", "+", "?", "{2}", "{1,3}", "{0,1}"])
+        return a
+
+    def expr(d):
+        return "".join(quant(atom(d)) for _ in range(rng.randint(1, 4)))
+
+    e = expr(depth)
+    if rng.random() < 0.2:
+        e = rng.choice(["(?i)", "(?s)", "(?m)", "(?U)"]) + e
+    return e
+
+
 TABLES = ["Lu", "Ll", "Nd", "P", "Cs", "Co", "Cc", "Zs", "Sm", "Mn", "C"]
 PREDS = ["even", "nonzero", "mod3", "always"]
 MAKES = ["int", "struct", "named", "namedstr", "slice", "map", "ptr", "array", "bool", "string", "emptystruct", "set", "sliceempty", "marker",
-         "emptyarray", "floats", "uintptr"]
+         "emptyarray", "floats", "uintptr", "local1", "local2", "tree", "nestedptr"]
 
 
 def lens(rng):
@@ -240,6 +281,7 @@ def all_constructors():
         out += [g("StringMatching", expr=e), g("SliceOfBytesMatching", expr=e)]
     for t in MAKES:
         out.append(g("Make", type=t))
+    out.append(g("OneOf", gens=[g("Make", type="local1"), g("Make", type="local2"), g("Make", type="local1")]))
     el = g("IntRange", min="0", max="2")
     out += [g("SliceOf", elem=g("Int8")), g("SliceOfN", elem=g("Bool"), minLen=0, maxLen=0), g("SliceOfN", elem=g("Bool"), minLen=4, maxLen=4),
             g("SliceOfDistinct", elem=el), g("SliceOfNDistinct", elem=el, minLen=3, maxLen=3), g("SliceOfNDistinct", elem=el, minLen=4, maxLen=5),
@@ -278,6 +320,8 @@ def c03_scenarios(tier, seed):
     nrand = 150 if tier == "quick" else 2500
     for _ in range(nrand):
         exprs.append(gen_expr(rng, rng.choice([1, 2, 3])))
+    for _ in range(60 if tier == "quick" else 1200):
+        exprs.append(g(rng.choice(["StringMatching", "SliceOfBytesMatching"]), expr=random_regexp(rng, rng.choice([1, 2, 3]))))
     ninputs = 40 if tier == "quick" else 300
     nseeds = 4 if tier == "quick" else 25
     for i in range(0, len(exprs), 3):
